@@ -484,7 +484,7 @@ impl Gen<'_> {
         let w = self.who();
         let mut b = self.bucket(true);
         // half of the time, when there is one: a bucket that holds no object but for which an upload is open — the complete
-        // that follows goes into a bucket that no longer exists (9bdb75f: `NoSuchBucket`, nothing recreated)
+        // that follows goes into a bucket that no longer exists (b29f222: `NoSuchBucket`, nothing recreated)
         let orphaning: Vec<String> = self
             .sim
             .ups
@@ -620,7 +620,7 @@ impl Gen<'_> {
         let l = slen.unwrap_or(50) as u64;
         let mut plen = slen;
         let r: Option<String> = if self.rng.chance(1, 2) {
-            // (since 814bd03 the whole copy of an empty source involves no wrapping arithmetic: any history may ask for it)
+            // (since 18203b6 the whole copy of an empty source involves no wrapping arithmetic: any history may ask for it)
             None
         } else if self.rng.chance(1, 2) {
             if l == 0 {
@@ -630,14 +630,14 @@ impl Gen<'_> {
             let z = if self.rng.chance(1, 5) { l - 1 } else { a + self.rng.below(l - a) };
             plen = Some((z - a + 1) as usize);
             if self.rng.chance(1, 6) {
-                // an open-ended range is refused (814bd03)
+                // an open-ended range is refused (18203b6)
                 plen = None;
                 Some(format!("bytes={a}-"))
             } else {
                 Some(format!("bytes={a}-{z}"))
             }
         } else {
-            // values that are not `bytes=first-last` inside the source: refused with InvalidArgument (814bd03), in clean
+            // values that are not `bytes=first-last` inside the source: refused with InvalidArgument (18203b6), in clean
             // histories too
             plen = None;
             Some(match self.rng.below(16) {
@@ -708,7 +708,7 @@ impl Gen<'_> {
             if !exact_ok || self.conflicts(&b, &k) {
                 return None;
             }
-            // (since 9bdb75f a complete into a bucket that no longer exists is refused and changes nothing: a clean history
+            // (since b29f222 a complete into a bucket that no longer exists is refused and changes nothing: a clean history
             // may ask for it; the upload stays and can be completed once the bucket exists again)
             // (since 47e9b00 a complete replaces the side files of the object it replaces: a clean history may complete
             // over an object that has metadata or recorded checksums)
@@ -742,7 +742,7 @@ impl Gen<'_> {
                 let exact = pl == format!("+{}", run.iter().map(|(n, _)| n.to_string()).collect::<Vec<_>>().join(","));
                 // since 0096ef4 the real backend consumes the upload id only when the complete succeeds (an empty part list
                 // "succeeds" too); after a failed complete the upload stays and later operations keep addressing it
-                // ... and (9bdb75f) only when the bucket still exists: the object is not written into a bucket that is gone
+                // ... and (b29f222) only when the bucket still exists: the object is not written into a bucket that is gone
                 let bucket_there = self.sim.buckets.contains_key(&b);
                 if bucket_there && (good || (exact && exact_ok) || pl == "+") {
                     self.sim.ups[i].alive = false;
@@ -829,7 +829,7 @@ impl Gen<'_> {
         self.ops.push(format!("get:{w}:{}:{}:s{}", hs(&b), hs(&k), lens[2] + 2));
     }
 
-    /// a scripted complete into a bucket that was deleted while the upload was open (9bdb75f: `NoSuchBucket`, the bucket is
+    /// a scripted complete into a bucket that was deleted while the upload was open (b29f222: `NoSuchBucket`, the bucket is
     /// not recreated, the upload stays); the random steps that follow find the upload alive and its bucket gone or back
     fn orphan_script(&mut self) {
         let w = self.who();
